@@ -1,4 +1,5 @@
-\* WsImpl as the PINNED TREE behaves (FixDup = FixDel = FixInit = FALSE).  This configuration must
+\* WsImpl as the tree behaves / behaved (FixDup = FixDel = FALSE: open findings; FixInit = FALSE:
+\* the behaviour before /repo commit 930d13f).  This configuration must
 \* FAIL: TLC reproduces the suspected defects of DESIGN section 7 #11 as counterexamples
 \* (the driver runs it and treats "no error found" as a specification regression):
 \*   Refines       SrcStart: a second operation of an id starts while the first is executing
